@@ -94,7 +94,7 @@ package aucoalesce
 //@ ensures[C15] !held(c.mutex)
 //@ func (*aucoalesce.stringCache).hardcode
 //@ lockfree[C15] c.mutex
-//@ requires c != nil && !held(c.mutex)
+//@ requires c != nil && c.data != nil && !held(c.mutex)
 //@ ensures[C15] !held(c.mutex)
 
 // The later stages receive only the event. event.Paths holds the PATH messages'
